@@ -257,8 +257,12 @@ def run(chk: Check, ctx: Any) -> None:
     chk.rule("C01-R4", "add_loop/add_switch_case are undone by remove_* on every normal exit of the collecting handler")
     chk.rule("C01-R1", "every condition, switch/case header, assignment, context and plain-operation form compiles (handlers evaluated abstractly on the grammar's parse tree) to "
                        "the opcode and parameter order the language specification assigns; meaningless forms are rejected; every parser rule has its handler")
+    chk.rule("C01-R5", "programs with macros (nested, in any definition order, across files, control flow and labels inside, expanded several times) compile to "
+                       "code that is bisimilar to the hand-inlined program (the projects of C05-R6)")
     forms_compiled_rule(chk, ctx, "C01-R1")
     sta_rule(chk, ctx, "C01-R2", thorough)
+    from .macros import inline_rule
+    inline_rule(chk, ctx, "C01-R5", rejects=False)
     strip_last_label_rules(chk, ctx, "C01-R3")
     # R4 (shared with C10-R4)
     n_pairs = 0
@@ -522,6 +526,10 @@ DEGENERATE_PROGRAMS = (
     "def 0 { §a; }", "def 0 { §a; §b; }", "def 0 { §a; jump @a; }", "def 0 { jump @a; §a; }", "def 0 { alias previous; }", "def 0 { a(); } def 1 { alias previous; }",
     "def 0 { switch ($S) { } }", "def 0 { forever { } }", "def 0 { if ($A == 1) { } }", "def 0 { if ($A == 1) { } else { } }", "def 0 { while ($A == 1) { } }",
     "def 0 { switch ($S) { default: } }", "def 0 { with (actor 7) { return; } }", "coro A { §a; }", "def 0 for actor 1.5 { §a; }", "def 0 { §a; call @a; }",
+    # literals with nothing in them, in every place a string can stand
+    "def 0 { a('', \"\", '''''', \"\"\"\"\"\", {english='''''', german=\"\"}); }", "def 0 { message_SwitchTalk ($V) { case 1: '''''' default: \"\"\"\"\"\" } }",
+    "def 0 { switch (message_Menu(1)) { case menu(''''''): x(); case menu(''): y(); } }", "def 0 { a(Position<'', 0, 0>); }",
+    "macro m($s) { b($s); } def 0 { ~m(''''''); ~m({english=\"\"\"\"\"\"}); }", "def 0 { a('''\n''', \"\"\" \"\"\", '''\n\n'''); }",
 )
 
 
